@@ -196,6 +196,28 @@ def rule_b(ctx: Context, R: Reporter, fi: FuncInfo):
                                (d.kind == "aug" and isinstance(d.value.op, ast.Add) and isinstance(const_value(d.value.value), int) and const_value(d.value.value) > 0) for d in jdefs)
                     R.check("C06.b", "the source index starts at 0 and only grows", mono, fi, st.stmt,
                             msg=f"{fi.short}: index `{src.id}` written into the output is not monotone (definitions: {[unparse(d.stmt)[:30] for d in jdefs]})", key="monotone-index")
+                    # the running sum is the cumulative weight up to and including the current index: it starts at
+                    # w[j0] with j0 the start of the index, and every increment of the index adds w[index]
+                    j = src.id
+                    accs = {}
+                    for n2 in cfg.stmt_nodes():
+                        if n2.kind == "stmt" and isinstance(n2.stmt, ast.AugAssign) and isinstance(n2.stmt.op, ast.Add) and isinstance(n2.stmt.target, ast.Name) \
+                                and isinstance(n2.stmt.value, ast.Subscript) and isinstance(n2.stmt.value.slice, ast.Name) and n2.stmt.value.slice.id == j:
+                            accs.setdefault(n2.stmt.target.id, []).append(n2)
+                    for acc, adds in accs.items():
+                        warr = adds[0].stmt.value.value
+                        inits = [d for dl in flow.defs_at.values() for d in dl if d.name == acc and d.kind == "assign"]
+                        j0 = [const_value(d.value) for d in jdefs if d.kind == "assign"]
+                        ok_init = bool(inits) and all(isinstance(d.value, ast.Subscript) and norm_text(d.value.value) == norm_text(warr) and const_value(d.value.slice) in j0 for d in inits)
+                        R.check("C06.b", "the running sum starts at the weight of the starting index", ok_init, fi, inits[0].stmt if inits else adds[0].stmt,
+                                msg=f"{fi.short}: `{acc}` is initialised by `{unparse(inits[0].value) if inits else '?'}` while the index starts at {j0}: the running sum is not the cumulative "
+                                    f"weight of indices 0..{j}, so copies are attributed to the wrong index", key="accumulator-init")
+                        # each addition follows an increment of j in the same block (sum and index advance together)
+                        for a_ in adds:
+                            incs_ = [d.node for d in jdefs if d.kind == "aug" and d.node is not None]
+                            paired = any(cfg.dominates(i_.id, a_.id) and i_.loops == a_.loops for i_ in incs_)
+                            R.check("C06.b", "the running sum advances together with the index", paired, fi, a_.stmt,
+                                    msg=f"{fi.short}: `{unparse(a_.stmt)}` is not preceded by the increment of `{j}` in the same loop body", key="accumulator-step")
         R.check("C06.b", "every output slot is assigned once, unconditionally, in `for i in range(size)`", ok_store, fi, rn.stmt,
                 msg=f"{fi.short}: slots of `{v.id}` are not all assigned in a loop over range({size_param})", key="slots-assigned")
 
